@@ -64,7 +64,6 @@ const CORPUS: &[&[&str]] = &[
     &["DEFCAL RX(%t) q:\n\tNOP\n\tRX(2*%t) q", "RX(1) 2"],
     &["DEFCAL RX(%t) 0:\n\tRX(%t*1) 0", "RX(0) 0"],
     &["DEFCAL RX(%t) 0:\n\tRY(%t+1) 0", "DEFCAL RY(%t) 0:\n\tRX(%t) 0", "NOP\nRX(0) 0"],
-    &["DEFCAL U2(%t, %u) 0:\n\tU2(%u, %t+%u) 0", "U2(1, 1) 0"],
     // the same calibration, rescued by a literal one that the growing parameter reaches after simplification
     &["DEFCAL RX(%t) 0:\n\tRX(%t+1) 0", "DEFCAL RX(3) 0:\n\tNOP", "RX(0) 0"],
     &["DEFCAL RX(%t) 0:\n\tRX(%t+1) 0", "DEFCAL RX(3) 0:\n\tNOP", "RX(0.5) 0"],
@@ -107,7 +106,7 @@ const CAL_POOL: &[&str] = &[
     "DEFCAL MEASURE 0 addr:\n\tX 0",
 ];
 
-const BODY_POOL: &[&str] = &["X 0", "X 1", "Y 0", "CZ 1 2", "RX(0) 0", "RX(1) 1", "RY(1) 0", "MEASURE 1 ro[0]"];
+const BODY_POOL: &[&str] = &["X 0", "X 1", "RX(0) 0", "Y 0", "CZ 1 2", "RX(1) 1", "MEASURE 1 ro[0]", "RY(1) 0"];
 
 fn run(ctx: &mut Ctx) {
     let mut iso = Isolated::new(Duration::from_secs(30));
@@ -125,7 +124,7 @@ fn run(ctx: &mut Ctx) {
     for parts in CORPUS {
         emit(ctx, parts.iter().map(|s| s.to_string()).collect());
     }
-    // (2) exhaustive: ordered selections of up to 2 (quick) / 3 (thorough) pool calibrations x one body instruction
+    // (2) exhaustive: ordered selections of up to 2 (quick) / 3 (thorough) pool calibrations x body instructions
     let quick = ctx.quick();
     let n = CAL_POOL.len();
     let mut sets: Vec<Vec<usize>> = vec![];
@@ -144,15 +143,21 @@ fn run(ctx: &mut Ctx) {
             }
         }
     }
+    // quick: every other body-pool entry (still one instruction per gate name and the measurement)
+    let bodies: Vec<&str> = BODY_POOL.iter().enumerate().filter(|(k, _)| !quick || k % 2 == 0).map(|(_, b)| *b).collect();
     for set in &sets {
-        for b in BODY_POOL {
+        for (k, b) in bodies.iter().enumerate() {
+            // triples (thorough only): two body instructions, `X 0` and `RX(0) 0`
+            if set.len() == 3 && !(k == 0 || k == 2) {
+                continue;
+            }
             let mut pieces: Vec<String> = set.iter().map(|&k| CAL_POOL[k].to_string()).collect();
             pieces.push(b.to_string());
             emit(ctx, pieces);
         }
     }
     // (3) seeded random programs, no discipline on invocations (`Mode::Wild`): cycles, growth, re-entrance
-    let count = if quick { 1_500 } else { 40_000 };
+    let count = if quick { 1_000 } else { 15_000 };
     let mut rng = ctx.rng(18);
     for _ in 0..count {
         let ncal = 1 + rng.below(5);
